@@ -15,7 +15,7 @@ def replay_payload(p):
     if eng in ("pair", "faithful"):
         from . import pairs
         return pairs.replay(p)
-    if eng in ("threads", "repeat", "nested", "args"):
+    if eng in ("threads", "repeat", "nested", "args", "poison"):
         from . import conc
         return conc.replay(p)
     raise ValueError("unknown engine %r" % (eng,))
@@ -32,7 +32,7 @@ def minimise(p):
         from .machines import radius as mod
     elif eng in ("pair", "faithful"):
         from . import pairs as mod
-    elif eng in ("threads", "repeat", "nested", "args"):
+    elif eng in ("threads", "repeat", "nested", "args", "poison"):
         from . import conc as mod
     fn = getattr(mod, "minimise", None) if mod is not None else None
     return fn(p) if fn else p
